@@ -36,6 +36,11 @@ CHECKS = {
    note="Trusted: Coq kernel; translator (reading of Error::code and of the headings of docs/errors.md); harness hook verif_primary_location (cfg penne_verif); ariadne is exercised, not modelled. Fixed defects: D8 (CRLF offsets), D13 (undocumented codes), D3 (hash-order IR). Print Assumptions: closed.",
    technique="Coq proof by computation over translator-generated code/catalogue tables + location invariants and 3-process determinism on generated failing inputs",
    design="5/C13"),
+ "C17": dict(
+   text="Machine-checked proof (Coq) about header extraction of the second-generation parser: for every node array with properly bracketed private zones the loop terminates without wrap-around and yields exactly the nodes outside the zones, in order, each converted (Public cleared, FunctionImpl replaced by the no-body marker, node references shifted by the number of skipped nodes); references land on the image of their target; declarations keep their order; and the parser's own zone bookkeeping (set_private/set_public/patch) always produces properly bracketed zones. Tie: the real Debug node array of generated modules is fed to the extracted model and its header must equal the real build_header() array node for node; the hypotheses zones_wf / refs_local are evaluated (by proved-sound boolean checkers) on every real array.",
+   note="Trusted: Coq kernel; hand model Model/Header.v; reading of the derived Debug output (pv/deltatree.py); refs_local is a checked, not proved, invariant of the parser. Print Assumptions: closed.",
+   technique="Coq proof: build_header = filter-and-convert specification under zone well-formedness (invariant of the buffer operations proved); differential correspondence on real node arrays",
+   design="5/C17"),
 }
 
 NOT_YET = {
